@@ -178,20 +178,20 @@ Proof.
         destruct (stream_from_substr_ws text vs (E.r_epieces vps) tail (WV_W _ _ _ HWv)) as (Es & HWS). rewrite Es in Hes. injection Hes as <-.
         assert (NEST : exists Q1 tr1, E.inline_ps (E.level decls 11) false false vps = Some (Q1, tr1) /\
                          ld_run ld2 tr1 = Some (c_ld c4) /\ no13 Q1 /\ tframe c3 c4).
-        { change entity_levels with (S 11) in Hq4. cbn [parse_content_lvl] in Hq4. unfold parse_content in Hq4. cbn [sst s_rest] in Hq4.
+        { remember 11%nat as j11 eqn:Ej11. change entity_levels with (S 11) in Hq4. rewrite <- Ej11 in Hq4. cbn [parse_content_lvl] in Hq4. unfold parse_content in Hq4. cbn [sst s_rest] in Hq4.
           destruct (uep_bytes true vps Hok) as (Hustr & H60).
           destruct (E.r_epieces vps) as [|y vb] eqn:Evb.
           - apply (uep_nil true) in Evb; [|exact Hok]. subst vps. cbn [app length parse_content_loop] in Hq4.
             rewrite at_end_sst, blen_nil in Hq4. replace (vs + 0 <=? vs) with true in Hq4 by lia. injection Hq4 as _ <-.
-            exists [], []. split; [reflexivity|]. split; [rewrite <- Ld3; reflexivity|]. split; [constructor|apply tframe_refl].
+            subst j11. exists [], []. split; [reflexivity|]. split; [rewrite <- Ld3; reflexivity|]. split; [constructor|apply tframe_refl].
           - cbn [app length] in Hq4. change (y :: vb ++ tail) with ((y :: vb) ++ tail) in Hq4.
             rewrite (content_loop_text_ne_u text context _ (vs + blen (y :: vb)) vs (y :: vb) tail c3 _ HWv eq_refl) in Hq4;
               [|apply (W_le text _ _ (W_app text _ _ _ (WV_W _ _ _ HWv)))|exact Hustr|exact H60|exact Hn3|discriminate].
             ib Hq4 c4' Hc4. injection Hq4 as _ <-. cbn [token_with] in Hc4.
-            destruct (ptok_skel text HF decls ets Henv Hdecls Hmk Hvals Hnames 11%nat _ _ _ _ _ HWv (CstFullS2Sem.ustr_valid _ Hustr)
+            destruct (ptok_skel text HF decls ets Henv Hdecls Hmk Hvals Hnames j11 _ _ _ _ _ HWv (CstFullS2Sem.ustr_valid _ Hustr)
                         ltac:(rewrite <- Evb; exact (Hvals _ vps Hin Ev)) Hent3 Hc4) as (ps1 & Q1 & tr1 & E1 & Hps1 & Hi1 & Hr1 & HQ1 & TF4).
             assert (ps1 = vps) by (apply beps_unique; [exact Hps1|apply (uep_beps true); assumption|rewrite Evb; symmetry; exact E1]). subst ps1.
-            exists Q1, tr1. split; [exact Hi1|]. split; [rewrite <- Ld3; exact Hr1|]. split; [exact HQ1|exact TF4]. }
+            subst j11. exists Q1, tr1. split; [exact Hi1|]. split; [rewrite <- Ld3; exact Hr1|]. split; [exact HQ1|exact TF4]. }
         destruct NEST as (Q1 & tr1 & Hi1 & Hr1 & HQ1 & TF4).
         set (c6 := set_ld (set_entity_floor (set_tag_name c4 (c_tag_name (set_ld c1 ld2))) (c_entity_floor (set_ld c1 ld2)))
                           (dec_depth (c_ld (set_entity_floor (set_tag_name c4 (c_tag_name (set_ld c1 ld2))) (c_entity_floor (set_ld c1 ld2)))))) in *.
@@ -241,8 +241,8 @@ Proof.
         assert (Ld3 : c_ld c3 = ld2) by reflexivity.
         rewrite Een in Hes. cbn [sl sl_start sl_end] in Hes.
         pose proof (tframe_trans _ _ _ TF1 TF3) as TF13.
-        change entity_levels with (S 11) in Hq4. cbn [parse_content_lvl] in Hq4.
-        destruct (markup_use text HF xds ets Henv Hdecls Hmk Hvals Hnames (X4.level xds 9) 11%nat vs its0 tail es0 c3 sx c4 stk Huse HWv Hes
+        remember 11%nat as j11 eqn:Ej11. change entity_levels with (S 11) in Hq4. rewrite <- Ej11 in Hq4. cbn [parse_content_lvl] in Hq4.
+        destruct (markup_use text HF xds ets Henv Hdecls Hmk Hvals Hnames (X4.level xds 9) j11 vs its0 tail es0 c3 sx c4 stk Huse HWv Hes
                     (SimD_tframe text ets _ _ _ HS TF13) (ResX_tframe _ _ TF13 HR) Hq4) as (HS4 & HR4 & Ld4 & bsv & HSem).
         set (c6 := set_ld (set_entity_floor (set_tag_name c4 (c_tag_name (set_ld c1 ld2))) (c_entity_floor (set_ld c1 ld2)))
                           (dec_depth (c_ld (set_entity_floor (set_tag_name c4 (c_tag_name (set_ld c1 ld2))) (c_entity_floor (set_ld c1 ld2)))))) in *.
@@ -266,7 +266,7 @@ Proof.
         split; [constructor; [constructor|exact Hb]|].
         split.
         { constructor; [reflexivity|]. apply PV_app; [exact HPv|]. constructor; [reflexivity|exact HP]. }
-        split; [|auto]. unfold bmark. rewrite nso_text, bdens_app, CstFullTree.ns_oks_app, Hnv, nso_text. exact Hn.
+        split; [|auto]. unfold bmark. rewrite nso_text, CstFullS4Sem.bdens_app, CstFullTree.ns_oks_app, Hnv, nso_text. exact Hn.
   - fold (sst e p (x :: l1 ++ more)) in Hq. rewrite advance1_sst in Hq by lia. cbn [bind] in Hq.
     inversion Hq; subst ch s1. clear Hq.
     assert (HV' : exists dn', U8.Valid (dn' ++ l1)) by (destruct HV as (dn & HV); exists (dn ++ [x]); rewrite <- app_assoc; exact HV).
@@ -292,7 +292,7 @@ Proof.
       as (ps & bs & tr & E1 & Hps & Hi & Hr & Hb & HP & Hn & HS1 & HR1 & Hd1).
     destruct (flush_tframe _ _ _ _ H) as (TF2 & Ld2).
     rewrite Hld in Hr. pose proof (CstEntBuild.ld_run_init tr _ Hr Hd1) as Ec1.
-    exists ps, bs, tr. split; [exact E1|]. split; [exact Hps|]. split; [exact Hi|]. split; [split; [exact Hb|rewrite <- Ec1; exact Hr]|].
+    exists ps, bs, tr. split; [exact E1|]. split; [exact Hps|]. split; [exact Hi|]. split; [split; [exact Hb|rewrite Ec1 in Hr; exact Hr]|].
     split; [exact HP|]. split; [exact Hn|]. split; [|exact (ResX_tframe _ _ TF2 HR1)].
     apply SimD_P; [exact (SimD_tframe text ets _ _ _ HS1 TF2)|congruence].
   - destruct (append_text_tframe _ _ _ _ H) as (TF & Ld).
